@@ -166,7 +166,7 @@ class World:
             name = f"{s.role}{k}"
             lines = [SDV.new_line(name, self.tm, [SVC] if s.role == "o" else [])] + [SDV.model_line(name, e) for e in s.events]
             outs = self.model.run(lines)
-            if outs[0] != s.first:
+            if not scen.same_state(s.first, outs[0]):
                 rep.disagree(f"c04 {name} initial", outs[0][:300], s.first[:300], case)
                 continue
             for i, (a, b) in enumerate(zip(s.states, outs[1:])):
